@@ -1,1 +1,53 @@
-From Emd Require Import Base.Prelude Model.H5 Model.Emd Model.Reader.
+(* C07 -- partial save writes exactly the selected part of the tree, always with the root.  Statements only.
+   Each theorem gives the COMPLETE content of the fresh file, so "nothing outside the selection is written"
+   is the equality itself; root_with root extra = the root's own group (name, tags, all its metadata) + extra. *)
+From Emd Require Import Base.Prelude Model.H5 Model.Emd Model.EmdList Generated.Tables Proofs.PTree.
+
+Theorem C07_root_target_whole_tree :
+  forall c root tr, rcls root = CRoot -> ok_tree root -> tr <> Some false ->
+    fresh_file c root [] tr = Ok (G (header c) [(rname root, enc root)]).
+Proof. exact fresh_file_whole_tree. Qed.
+Print Assumptions C07_root_target_whole_tree.
+
+Theorem C07_root_target_alone :
+  forall c root, rcls root = CRoot ->
+    fresh_file c root [] (Some false) = Ok (G (header c) [(rname root, node_shallow root)]).
+Proof. exact fresh_file_root_only. Qed.
+Print Assumptions C07_root_target_alone.
+
+Theorem C07_node_alone :
+  forall c root tp data, rcls root = CRoot -> tp <> [] -> rwalk root tp = Some data ->
+    ~ In (rname data) (keys (shallow_links root)) ->
+    fresh_file c root tp (Some false) = Ok (G (header c) [(rname root, root_with root [(rname data, node_shallow data)])]).
+Proof. exact partial_save_node_alone. Qed.
+Print Assumptions C07_node_alone.
+
+Theorem C07_node_with_its_branch :
+  forall c root tp data, rcls root = CRoot -> tp <> [] -> rwalk root tp = Some data ->
+    ~ In (rname data) (keys (shallow_links root)) -> ok_tree data ->
+    fresh_file c root tp (Some true) = Ok (G (header c) [(rname root, root_with root [(rname data, enc data)])]).
+Proof. exact partial_save_node_and_branch. Qed.
+Print Assumptions C07_node_with_its_branch.
+
+Theorem C07_branch_below_the_node :
+  forall c root tp data, rcls root = CRoot -> tp <> [] -> rwalk root tp = Some data -> ok_tree data ->
+    (forall k, In k (rkids data) -> ~ In (rname k) (keys (shallow_links root))) ->
+    fresh_file c root tp None = Ok (G (header c) [(rname root, root_with root (enc_kids (rkids data)))]).
+Proof. exact partial_save_branch_only. Qed.
+Print Assumptions C07_branch_below_the_node.
+
+(* an unrooted node is wrapped in a root named after it, carrying no metadata *)
+Theorem C07_unrooted_wrapped :
+  forall top, rcls top <> CRoot ->
+    rooted top [] = (RN CRoot (rname top +++ "_root") 0 0 [] [top], [rname top]).
+Proof. intros top H. unfold rooted. destruct (rcls top); congruence. Qed.
+Print Assumptions C07_unrooted_wrapped.
+
+Example C07_hypotheses_satisfiable :
+  let root := RN CRoot "r" 0%Z 0 [("m1", 5%Z)] [ RN CArray "a" 7%Z 2 [] [ RN CPl "p" 8%Z 0 [] [] ] ] in
+  rcls root = CRoot /\ rwalk root ["a"] = Some (RN CArray "a" 7%Z 2 [] [ RN CPl "p" 8%Z 0 [] [] ]) /\
+  ~ In "a" (keys (shallow_links root)) /\ ok_tree (RN CArray "a" 7%Z 2 [] [ RN CPl "p" 8%Z 0 [] [] ]).
+Proof.
+  cbn. repeat split; try (repeat constructor; cbn; intuition discriminate); try (intuition discriminate);
+    try (intros k [<-|[]]; cbn; intuition discriminate); try (intros k []).
+Qed.
